@@ -3,7 +3,7 @@
 view(self) = [getter(m) for m in self.col]   (`col` is the underlying relationship collection, a list here).
 Assumed, as the class itself documents ("obj = creator(somevalue); assert getter(obj) == somevalue"): `_create(value)` returns a
 new intermediary object whose proxied value is `value`; getter / creator are pure.
-Proved: append, extend, pop, __getitem__(int), __setitem__(int), __delitem__(int), clear, __len__ act on the view exactly as the
+Proved: append, extend, +=, pop, __getitem__(int), __setitem__(int), __delitem__(int), clear, __len__ act on the view exactly as the
 same list operation acts on a plain list.  insert / slices / remove / iteration are in the bounded complement (slice assignment
 has recorded defects).  DESIGN §5 C50.
 """
@@ -12,7 +12,7 @@ from pyvc.contract import fn, cls
 A = "ext/associationproxy.py::"
 cls("AList", fields={"col": "list", "getter": "fn", "creator": "fn", "setter": "fn", "_g_set_calls": "seqv"},
     methods={"_create": A + "_AssociationSingleItem._create@rt", "_get": A + "_AssociationSingleItem._get", "append": A + "_AssociationList.append",
-             "_set": A + "_AssociationList._set@ghost"})
+             "_set": A + "_AssociationList._set@ghost", "extend": A + "_AssociationList.extend"})
 fn(A + "_AssociationSingleItem._create@rt", abstract=True, cls="AList", params=["self", "value"], returns="v", fresh_result=False, modifies=[],
    ensures=["call(self.getter, result) is value", "result is not None"],
    notes="creator(value): an intermediary object whose proxied value is `value` (the round trip the class documents as assumed)")
@@ -28,6 +28,9 @@ fn(L + "append", cls="AList", props=["C50"], returns="none", types={"col": "list
 fn(L + "extend", cls="AList", props=["C50"], returns="none", types={"values": "seq"},
    invariant={0: [VIEW + " == " + OVIEW + " + prefix(values, _i)"]}, loop_modifies={0: ["contents(self.col)"]},
    ensures=[VIEW + " == " + OVIEW + " + values"], modifies=["contents(self.col)"])
+# `+=` is extend() (checked against extend's contract, not its body) and hands back the proxy itself
+fn(L + "__iadd__", cls="AList", props=["C50"], types={"iterable": "seq"},
+   ensures=["result is self", VIEW + " == " + OVIEW + " + iterable"], modifies=["contents(self.col)"])
 INR = "(-len(self.col) <= index and index < len(self.col))"
 NIX = "ite(index < 0, index + len(" + OVIEW + "), index)"
 fn(L + "pop", cls="AList", props=["C50"], types={"index": "int"}, raises={"IndexError": "not " + INR},
